@@ -378,7 +378,7 @@ def write_replay(prop, items, crate, kani_cmd, stdout_tail, dialect=False):
     for h, its in list(by_h.items())[:4]:
         entry = {"harness": h, "obligations": its}
         try:
-            pb = concrete_playback(crate, h, dialect)
+            pb = concrete_playback(crate, h, dialect, want=its[0]["description"][:60])
             entry.update(pb)
             if pb.get("native_reproduces"):
                 found_input = True
@@ -393,7 +393,7 @@ def write_replay(prop, items, crate, kani_cmd, stdout_tail, dialect=False):
     return path, found_input
 
 
-def concrete_playback(crate, harness, dialect=False):
+def concrete_playback(crate, harness, dialect=False, want=None):
     """Ask Kani for concrete values of the counterexample and run them natively (real unwinding, real TLS)."""
     env = dict(os.environ)
     env["RUSTFLAGS"] = RUSTFLAGS + (" --cfg verif_dialect" if dialect else "")
@@ -401,12 +401,25 @@ def concrete_playback(crate, harness, dialect=False):
     cmd = ["cargo", "kani"] + KANI_FLAGS + ["-Z", "concrete-playback", "--concrete-playback=print", "--harness", harness, "--harness-timeout", "1500s"]
     r = subprocess.run(cmd, cwd=crate, env=env, capture_output=True, text=True, timeout=1800)
     out = r.stdout
-    m = re.search(r"```\s*\n(.*?)```", out, re.S)
+    blocks = re.findall(r"```\s*\n(.*?)```", out, re.S)
     res = {"playback_cmd": " ".join(cmd)}
-    if not m:
+    if not blocks:
         res["concrete_values"] = None
         return res
-    test_src = m.group(1)
+    # Kani emits one unit test per failed check AND per satisfied cover: take the one for the refuted obligation
+    test_src = None
+    if want:
+        for b in blocks:
+            if want in b.split("#[test]")[0]:
+                test_src = b
+                break
+    if test_src is None:
+        for b in blocks:
+            if "Check for `assertion`" in b:
+                test_src = b
+                break
+    if test_src is None:
+        test_src = blocks[0]
     res["concrete_test"] = test_src
     vals = re.findall(r"//\s*(-?\d+[a-z0-9]*|true|false)\s*\n\s*vec!\[[^\]]*\]", test_src)
     res["concrete_values"] = vals
@@ -456,6 +469,7 @@ def main():
     ap.add_argument("--no-lemmas", action="store_true")
     ap.add_argument("--timeout", type=int, default=None)
     ap.add_argument("--no-replay", action="store_true")
+    ap.add_argument("--replay-known", action="store_true", help="also replay the counterexamples of the recorded known findings (writes known_findings_replay/<ID>.json)")
     ap.add_argument("--jobs", type=int, default=None)
     args = ap.parse_args()
     prop = args.prop
@@ -573,6 +587,25 @@ def main():
             if f["id"] not in printed:
                 print("KNOWN-FINDING: property=%s %s (%s)" % (prop, f["what"], f["id"]))
                 printed.add(f["id"])
+        if args.replay_known and known_hits:
+            seen = set()
+            items = []
+            for f, it in known_hits:
+                if (f["id"], it["harness"]) not in seen and len([1 for x in seen if x[0] == f["id"]]) < 1:
+                    seen.add((f["id"], it["harness"]))
+                    items.append(dict(it, known_finding=f["id"]))
+            for it in items:
+                for c_, d_, hs_ in replay_ctx:
+                    if it["harness"] in hs_:
+                        os.environ["VERIF_EVIDENCE_DIR_SAVE"] = os.environ.get("VERIF_EVIDENCE_DIR", "")
+                        os.environ["VERIF_EVIDENCE_DIR"] = os.path.join(VERIF, "known_findings_replay")
+                        try:
+                            write_replay("%s.%s" % (prop, it["known_finding"]), [it], c_, kani_cmd, "", d_)
+                        finally:
+                            if os.environ["VERIF_EVIDENCE_DIR_SAVE"]:
+                                os.environ["VERIF_EVIDENCE_DIR"] = os.environ["VERIF_EVIDENCE_DIR_SAVE"]
+                            else:
+                                os.environ.pop("VERIF_EVIDENCE_DIR", None)
         replay_path = None
         if new_viol:
             exit_code = 1
